@@ -364,7 +364,7 @@ def plan(tier, seed):
         if parser == 'earley' and quick:
             continue
         for pc in range(8):
-            slices.append({'id': '%s:imports%d:L%d' % (parser, pc, L), 'mode': 'realised', 'params': {'L': L, 'cfg': pc, 'parser': parser, 'kseq': 10 if quick else 19}, 'timeout': 600 if quick else 3000,
+            slices.append({'id': '%s:imports%d:L%d' % (parser, pc, L), 'mode': 'realised', 'params': {'L': L, 'cfg': pc, 'parser': parser, 'kseq': 10 if quick else 12}, 'timeout': 600 if quick else 3000,
                            'twin': pc == 0, 'bound': {'programs': 16, 'statements': L, 'kinds': len(LEXEMES)}})
         # the same programs with keep_all_tokens on, and with a terminal-built-from-a-terminal imported / extended / overridden
         for pc in range(8):
